@@ -74,6 +74,14 @@ MUTANTS = [
     ("C12", "xz-key", "typhon/files/utils.py", "    _known_compressions['xz'] = lzma.LZMAFile", "    _known_compressions['.xz'] = lzma.LZMAFile"),
     ("C12", "bz2-as-plain-copy", "typhon/files/utils.py", "                elif fmt == \"bz2\" or fmt == \"xz\":\n                    with compfile(target, 'wb') as f_out:", "                elif fmt == \"bz2\" or fmt == \"xz\":\n                    with open(target, 'wb') as f_out:"),
     ("C12", "swallow-compress-error", "typhon/files/utils.py", "    except Exception as e:\n        raise e\n    else:\n        if not keep:", "    except Exception as e:\n        pass\n    else:\n        if not keep:"),
+    ("C15", "write-directly", "typhon/files/fileset.py", "            with open(filename+\".backup\", 'w') as file:", "            with open(filename, 'w') as file:"),
+    ("C15", "drop-microseconds", "typhon/files/handlers/common.py", 'time.strftime("-%m-%dT%H:%M:%S.%f")', 'time.strftime("-%m-%dT%H:%M:%S.000000")'),
+    ("C15", "load-reraises", "typhon/files/fileset.py", "            except Exception as err:\n                warnings.warn(\n                    \"Could not load the file information from cache file \"", "            except ValueError as err:\n                warnings.warn(\n                    \"Could not load the file information from cache file \""),
+    ("C15", "year-unpadded", "typhon/files/handlers/common.py", 'f"{time.year:04d}"', 'f"{time.year:d}"'),
+    ("C15", "attr-not-saved", "typhon/files/handlers/common.py", '            "attr": self.attr,\n        }', '            "attr": {},\n        }'),
+    ("C15", "end-time-as-start", "typhon/files/handlers/common.py", "        return cls(json_dict[\"path\"], times, json_dict[\"attr\"])", "        return cls(json_dict[\"path\"], [times[0], times[0]], json_dict[\"attr\"])"),
+    ("C15", "silent-on-corrupt", "typhon/files/fileset.py", "            except Exception as err:\n                warnings.warn(", "            except Exception as err:\n                (lambda *a: None)("),
+    ("C15", "partial-update-before-error", "typhon/files/fileset.py", "                    info_cache = {\n                        json_dict[\"path\"]: FileInfo.from_json_dict(json_dict)\n                        for json_dict in json_info_cache\n                    }\n                    self.info_cache.update(info_cache)", "                    for json_dict in json_info_cache:\n                        self.info_cache[json_dict[\"path\"]] = FileInfo.from_json_dict(json_dict)"),
 ]
 
 
